@@ -1316,6 +1316,43 @@ def _(e):
     return "sptensor.__setitem__", X.__setitem__, (key, R), {}, X, {"how": ["open-start", "short-stop", "strided"][c]}
 
 
+@row("tensor.collapse:every-mode-and-one-outside", (2, 3))
+def _(e):
+    X = e.holder("tensor")
+    return "tensor.collapse", X.collapse, (np.array(list(range(e.N)) + [e.N + int(e.rng.integers(0, 3))]),), {}, X, {}
+
+
+for _k in ("ktensor", "tensor", "sptensor", "ttensor"):
+    def _mkN(k):
+        @row(f"{k}.nvecs:mode-negative-or-too-large", (2, 3))
+        def _(e, k=k):
+            X = e.holder(k)
+            n = -int(e.rng.integers(1, e.N + 1)) if e.rng.random() < 0.6 else e.N + int(e.rng.integers(0, 2))
+            return f"{k}.nvecs", X.nvecs, (n, 1), {}, X, {"how": "negative" if n < 0 else "too-large"}
+    _mkN(_k)
+
+
+@row("sptenmat.__setitem__:position-outside-the-matrix", (2, 3))
+def _(e):
+    S = e.holder("sptensor")
+    M = S.to_sptenmat(np.array([0]))
+    r_, c_ = M.shape
+    key = [(r_ + int(e.rng.integers(0, 3)), 0), (0, c_ + int(e.rng.integers(0, 3))), (-r_ - 1, 0), ([0, r_], 0)][int(e.rng.integers(0, 4))]
+    return "sptenmat.__setitem__", M.__setitem__, (key, 2.0), {}, M, {}
+
+
+for _op in ("symmetrize", "issymmetric"):
+    def _mkY(op):
+        @row(f"tensor.{op}:group-with-negative-repeated-or-outside-mode", (2, 3))
+        def _(e, op=op):
+            e.shape = (2,) * e.N
+            X = e.holder("tensor")
+            c = int(e.rng.integers(0, 3))
+            g = [np.array([0, -1]), np.array([0, 0]), np.array([0, e.N])][c]
+            return f"tensor.{op}", getattr(X, op), (g,), {}, X, {"how": ["negative", "repeated", "outside"][c]}
+    _mkY(_op)
+
+
 @row("tucker_als:negative-maxiters", (3,))
 def _(e):
     X = _adata(e)
